@@ -7,6 +7,7 @@
 //! trusted: process_failure_packet: AttributionData skeleton with external_body shift_right (verified for the real type in u14 / Kani); update_attribution_data external_body (leaves attribution data present and the data untouched: get_or_insert + update); update_fail_htlc_wire_len external_body returning the uninterpreted wire size (a function of the data length and the presence of attribution data); R8: `if let Some(ref mut x) = e { .. }` -> match on &mut e
 //! trusted: R15: decode_next_hop: the statements up to the HMAC test verbatim as a function (key derivation external_body over uninterpreted rho_of/mu_of; HmacEngine is a stub that records key and the concatenation of its inputs in ghost fields; Hmac::from_engine is the uninterpreted hmac_sha256 of those; fixed_time_eq is equality); decrypting and parsing the payload after the gate are dropped and not claimed
 //! trusted: R15 (deep slices): the TLV type literal under which each of the three sender-side payload writers puts the keysend preimage and from which each of the two receiver-side readers takes it (five literals extracted from the TLV macro invocations of ln/msgs.rs); the TLV macros themselves are not verified
+//! trusted: R15 (deep slice): create_payment_onion_internal: the construction of the stripped RecipientOnionFields for a trampoline entry point and the condition of the refusal "Cannot pass payment_metadata to a blinded recipient" (first test under `if let Some(blinded_tail) = &path.blinded_tail`), verbatim as a function of the caller's fields; struct RecipientOnionFields is extracted (PaymentSecret is a 32-byte skeleton); building the trampoline and outer onions after the gate is dropped and not claimed here
 //! assume: every hop's fee_msat <= 21e17 (the total supply in msat): without it `cur_value_msat += hop.fee_msat()` can overflow u64 before the limit test (observation O5 in DESIGN)
 //! assume: the contract is for a path without blinded or trampoline tail (blinded_tail is None) whose final hop carries a non-zero amount; the other arms are kept in the verified text but unreachable under this precondition and not claimed
 use vstd::prelude::*;
@@ -306,5 +307,42 @@ pub open spec fn keysend_tlv_type() -> u64 { 5482373484 }
 //@ensures P C14 the-final-hop-reads-the-keysend-preimage-from-the-blip-3-tlv-type
     r == keysend_tlv_type(),
 //@end
+
+// ---- create_payment_onion: what the sender refuses to put into an onion for a blinded recipient -------
+// A blinded final payload has no slot for payment_metadata: the sender's fields are delivered or the build is refused,
+// never silently dropped. The fields handed to a trampoline entry point carry the caller's payment secret and nothing
+// the caller did not give.
+pub mod blinded_gate {
+use vstd::prelude::*;
+#[derive(Clone, Copy)]
+pub struct PaymentSecret(pub [u8; 32]);
+//@extract lightning/src/ln/outbound_payment.rs :: struct RecipientOnionFields
+//@end
+//@extract lightning/src/ln/onion_utils.rs :: fn create_payment_onion_internal
+//@slice R15
+    let mut trampoline_outer_onion = RecipientOnionFields { $fields:any }; let (outer_onion, trampoline_packet_option) = if let Some(blinded_tail) = &path.blinded_tail { if $guard:cond { return Err(APIError::InvalidRoute { err: "Cannot pass payment_metadata to a blinded recipient".to_owned(), }); }
+//@with
+    fn refuses_blinded_recipient(recipient_onion: &RecipientOnionFields) -> (bool, RecipientOnionFields) {
+        let mut trampoline_outer_onion = RecipientOnionFields { $fields };
+        let __refuse = $guard;
+        (__refuse, trampoline_outer_onion)
+    }
+//@ret r
+//@ensures P C14 payment-metadata-for-a-blinded-recipient-is-refused-by-the-sender-because-the-blinded-final-payload-cannot-carry-it
+    r.0 == (recipient_onion.payment_metadata is Some),
+//@ensures P C14 the-fields-for-the-trampoline-entry-point-carry-the-callers-payment-secret-and-no-metadata-or-custom-tlvs
+    r.1.payment_secret == recipient_onion.payment_secret,
+    r.1.payment_metadata is None,
+    r.1.custom_tlvs@.len() == 0,
+//@mutant metadata_gate_looks_at_the_stripped_copy
+    if recipient_onion.payment_metadata.is_some() { return Err
+//@with
+    if trampoline_outer_onion.payment_metadata.is_some() { return Err
+//@mutant metadata_gate_inverted
+    if recipient_onion.payment_metadata.is_some() { return Err
+//@with
+    if recipient_onion.payment_metadata.is_none() { return Err
+//@end
+}
 }
 fn main() {}
